@@ -82,7 +82,8 @@ Definition relay_resp (p : pparams) (u : presp) : presp := {|
 (* what the source has to look like for the model to be its model *)
 Definition source_ok : bool :=
   c37_same_method_target_body && c37_body_read_unconditionally && negb c37_looks_at_length &&
-  c37_req_headers_joined && c37_resp_relayed && c37_xff_rule &&
+  c37_req_headers_joined && c37_resp_relayed && c37_status_relayed_unconditionally && c37_body_relayed_unconditionally &&
+  c37_xff_rule &&
   (c37_xff_all_values || c37_xff_first_value_only) &&
   (length c37_default_names =? length c37_default_values)%nat.
 
